@@ -110,7 +110,6 @@ def digest(obj):
 
     def feed(o):
         if hasattr(o, "coords") and hasattr(o, "data") and hasattr(o, "fill_value"):   # COO
-            import numpy as np
             order = np.lexsort(o.coords[::-1]) if o.coords.size else np.arange(0)
             h.update(b"coo")
             h.update(repr((tuple(o.shape), str(o.data.dtype))).encode())
@@ -479,12 +478,13 @@ def scenarios(tier, rng):
         dict(name="T_prefilled_1x1", setup=[T(0, a2)], threads=[[T(0, a0)], [T(0, a1)]]),
         dict(name="T_prefilled_hit_vs_insert", setup=[T(0, a2)], threads=[[T(0, a2)], [T(0, a1)]]),
         dict(name="T_witness_shape", setup=[], threads=[[T(0, a1)], [T(0, a0), T(0, a2)]]),
-        dict(name="T_full_deque_evict", setup=[T(0, a0), T(0, a1), T(0, a2)],
-             threads=[[T(0, AXES3[3])], [T(0, AXES3[4]), T(0, a0)]]),
+        dict(name="T_full_deque_hit_vs_evict", setup=[T(0, a0), T(0, a1), T(0, a2)],
+             threads=[[T(0, a0)], [T(0, AXES3[4])]]),
+        dict(name="T_prefilled2_1x1", setup=[T(0, a0), T(0, a1)], threads=[[T(0, a2)], [T(0, AXES3[3])]]),
         dict(name="T_2x2", setup=[], threads=[[T(0, a0), T(0, a1)], [T(0, a1), T(0, a0)]]),
-        dict(name="R_prefilled_1x2", setup=[R(0, s2)], threads=[[R(0, s0)], [R(0, s1), R(0, s0)]]),
+        dict(name="R_witness_shape", setup=[], threads=[[R(0, s0)], [R(0, s1), R(0, s2)]]),
         dict(name="R_fresh_2x1", setup=[], threads=[[R(0, s0), R(0, s0)], [R(0, s1)]]),
-        dict(name="TR_same_array", setup=[T(0, a2)], threads=[[T(0, a0), R(0, s0)], [R(0, s1), T(0, a0)]]),
+        dict(name="TR_same_array", setup=[], threads=[[T(0, a0), R(0, s0)], [R(0, s0)]]),
         dict(name="T_identity_and_2d", setup=[], threads=[[T(0, (0, 1, 2)), T(1, (1, 0))], [T(1, (1, 0)), R(1, (4, 3))]]),
         # --- attribute memo
         dict(name="A_csr_vs_csc", setup=[], threads=[[A(1, "csr")], [A(1, "csc")]]),
@@ -500,6 +500,10 @@ def scenarios(tier, rng):
     ]
     if tier != "quick":
         ex += [
+            dict(name="T_full_deque_1x2", setup=[T(0, a0), T(0, a1), T(0, a2)],
+                 threads=[[T(0, AXES3[3])], [T(0, AXES3[4]), T(0, a0)]]),
+            dict(name="R_prefilled_1x2", setup=[R(0, s2)], threads=[[R(0, s0)], [R(0, s1), R(0, s0)]]),
+            dict(name="TR_same_array_2x2", setup=[T(0, a2)], threads=[[T(0, a0), R(0, s0)], [R(0, s1), T(0, a0)]]),
             dict(name="T_2x3", setup=[T(0, a2)], threads=[[T(0, a0), T(0, a1), T(0, a0)], [T(0, a1), T(0, AXES3[3])]]),
             dict(name="R_2x2_prefilled", setup=[R(0, s2)], threads=[[R(0, s0), R(0, s1)], [R(0, s1), R(0, s0)]]),
             dict(name="A_3x2", setup=[], threads=[[A(1, "csc"), A(1, "csr"), A(1, "csc")], [A(1, "csr"), A(1, "csc")]]),
